@@ -57,13 +57,13 @@ type Opts struct {
 }
 
 type Req struct {
-	Peer                           *string
+	Peer                            *string
 	SrcIP, RemoteIP, DstIP, DstPort uint32
-	SNI                            string
-	Headers                        [][2]string
-	Path                           *string
-	JWT                            []JF `json:",omitempty"`
-	HasJWT                         bool
+	SNI                             string
+	Headers                         [][2]string
+	Path                            *string
+	JWT                             []JF `json:",omitempty"`
+	HasJWT                          bool
 }
 type JF struct {
 	K    string
@@ -226,17 +226,17 @@ var (
 	prVals = []string{"cluster.local/ns/foo/sa/a", "cluster.local/ns/bar/sa/b", "td2/ns/foo/sa/a", "old-td/ns/prod/sa/c",
 		"*/ns/foo/sa/a", "*/sa/a", "*/sa/a.b", "cluster.local/ns/foo/*", "cluster.local/*", "*", "td2/*", "cluster.local/ns/foo-sys/sa/a.b",
 		"*-td/ns/foo/sa/a", "sa/a", "foo/sa/a"}
-	ipVals   = []string{"10.0.0.1", "10.0.0.0/24", "10.1.0.0/16", "0.0.0.0/0", "10.0.0.77/24", "192.168.1.5/32", "10.0.1.0/25", "172.16.0.0/12"}
-	badIPs   = []string{"10.0.0.256", "bogus", "10.0.0.0/33", "", "10.0.0.1/", "1.2.3", "01.2.3.4", "10.0.0.0/024"}
-	hostVals = []string{"example.com", "*.example.com", "api.*", "EXAMPLE.com", "*", "api.example.com", "example.com:8080", "*.COM"}
-	methVals = []string{"GET", "POST", "*", "P*", "*T", "DELETE", "get"}
-	pathVals = []string{"/api", "/api/*", "*/info", "*", "/a.b", "/api/v1/info", "/", "/api*", "*.html", "/a+b/*"}
-	portVals = []string{"80", "8080", "443", "9090", "0", "65535", "080"}
-	badPorts = []string{"http", "70000", "", "-1", "80 ", "4294967376", "+80"}
-	sniVals  = []string{"www.example.com", "*.example.com", "www.*", "*", "db.internal"}
-	hdrKeys  = []string{"request.headers[x-token]", "request.headers[X-Id]", "request.headers[user-agent]"}
-	hdrVals  = []string{"secret", "sec*", "*ret", "*", "abc", "A.c"}
-	rpVals   = []string{"issuer/sub", "*/sub", "issuer/*", "*", "iss*", "*sub", "https://accounts.example.com/sub1", "issuer", "https://accounts.example.com/*", "*.example.com/sub1"}
+	ipVals    = []string{"10.0.0.1", "10.0.0.0/24", "10.1.0.0/16", "0.0.0.0/0", "10.0.0.77/24", "192.168.1.5/32", "10.0.1.0/25", "172.16.0.0/12"}
+	badIPs    = []string{"10.0.0.256", "bogus", "10.0.0.0/33", "", "10.0.0.1/", "1.2.3", "01.2.3.4", "10.0.0.0/024"}
+	hostVals  = []string{"example.com", "*.example.com", "api.*", "EXAMPLE.com", "*", "api.example.com", "example.com:8080", "*.COM"}
+	methVals  = []string{"GET", "POST", "*", "P*", "*T", "DELETE", "get"}
+	pathVals  = []string{"/api", "/api/*", "*/info", "*", "/a.b", "/api/v1/info", "/", "/api*", "*.html", "/a+b/*"}
+	portVals  = []string{"80", "8080", "443", "9090", "0", "65535", "080"}
+	badPorts  = []string{"http", "70000", "", "-1", "80 ", "4294967376", "+80"}
+	sniVals   = []string{"www.example.com", "*.example.com", "www.*", "*", "db.internal"}
+	hdrKeys   = []string{"request.headers[x-token]", "request.headers[X-Id]", "request.headers[user-agent]"}
+	hdrVals   = []string{"secret", "sec*", "*ret", "*", "abc", "A.c"}
+	rpVals    = []string{"issuer/sub", "*/sub", "issuer/*", "*", "iss*", "*sub", "https://accounts.example.com/sub1", "issuer", "https://accounts.example.com/*", "*.example.com/sub1"}
 	claimKeys = []string{"request.auth.claims[groups]", "request.auth.claims[a][b]", "request.auth.claims[iss]", "request.auth.claims[scope]"}
 	claimVals = []string{"admin", "dev*", "*ops", "*", "issuer", "read"}
 	audVals   = []string{"aud1", "aud*", "*", "api.example.com"}
@@ -450,14 +450,14 @@ func around(v string) []string {
 		return []string{"", "anything"}
 	case strings.HasPrefix(v, "*"):
 		s := v[1:]
-		out := []string{s, "zz" + s, s + "z", "q" + s}
+		out := []string{s, "zz" + s, s + "z", "q" + s, "zz" + strings.ReplaceAll(s, ".", "X"), "zz" + strings.ReplaceAll(s, "+", "")}
 		if len(s) > 1 {
 			out = append(out, s[1:])
 		}
 		return out
 	case strings.HasSuffix(v, "*"):
 		p := v[:len(v)-1]
-		out := []string{p, p + "zz", "z" + p, p + "/x"}
+		out := []string{p, p + "zz", "z" + p, p + "/x", strings.ReplaceAll(p, ".", "X") + "zz"}
 		if len(p) > 1 {
 			out = append(out, p[:len(p)-1])
 		}
@@ -789,8 +789,8 @@ func genReq(r *vlib.Rand, p *pools, o Opts, useJWT bool) Req {
 type sample struct {
 	Opts     Opts
 	Policies []Pol
-	Request  *Req  `json:",omitempty"`
-	Requests []Req `json:",omitempty"`
+	Request  *Req   `json:",omitempty"`
+	Requests []Req  `json:",omitempty"`
 	Note     string `json:",omitempty"`
 }
 
@@ -999,9 +999,21 @@ func TestGen(t *testing.T) {
 			o := st.o(r)
 			ps := genPolicies(r, st.g)
 			p := buildPools(ps, o.TrustDomains)
+			// per-rule pools: most requests are aimed at one rule (values that satisfy or barely miss
+			// every condition of that rule), the rest mix constants of the whole set
+			var rulePools []*pools
+			for _, pol := range ps {
+				for _, ru := range pol.Rules {
+					rulePools = append(rulePools, buildPools([]Pol{{Rules: []Rule{ru}}}, o.TrustDomains))
+				}
+			}
 			reqs := make([]Req, 0, nreq)
 			for k := 0; k < nreq; k++ {
-				reqs = append(reqs, genReq(r, p, o, st.g.jwt))
+				pp := p
+				if len(rulePools) > 0 && r.Chance(65) {
+					pp = vlib.Pick(r, rulePools)
+				}
+				reqs = append(reqs, genReq(r, pp, o, st.g.jwt))
 			}
 			e.emit(o, ps, reqs, st.g, "stream "+st.name, nil)
 		}
